@@ -32,8 +32,12 @@ func (c *ClusterNode) syncUserCollections() error {
 		// ---------------------------
 		err = b.ForEach(func(k, v []byte) error {
 			// Extract userId from key, e.g. userIdDBDELIMITERcollectionId, we
-			// need because routing is done on userIds
-			userId := strings.Split(string(k), DBDELIMITER)[0]
+			// need because routing is done on userIds. The collection id is
+			// the part after the last delimiter, a user id may contain one.
+			userId := string(k)
+			if i := strings.LastIndex(userId, DBDELIMITER); i >= 0 {
+				userId = userId[:i]
+			}
 			destination := RendezvousHash(userId, c.Servers, 1)[0]
 			if destination != c.MyHostname {
 				// This collection should be on another server, so we need to
